@@ -407,13 +407,12 @@ func decimalValueFromString(numStr string, fracDigRequired uint8) (n Number, err
 	dx := strings.Index(s, ".")
 	var fracDig uint8
 	if dx >= 0 {
+		if len(s)-1-dx > int(fracDigRequired) {
+			return n, fmt.Errorf("%s has too much precision, expect <= %d fractional digits", s, fracDigRequired)
+		}
 		fracDig = uint8(len(s) - 1 - dx)
 		// remove first decimal, if dx > 1, will fail ParseInt below
 		s = s[:dx] + s[dx+1:]
-	}
-
-	if fracDig > fracDigRequired {
-		return n, fmt.Errorf("%s has too much precision, expect <= %d fractional digits", s, fracDigRequired)
 	}
 
 	s += space18[:fracDigRequired-fracDig]
